@@ -44,7 +44,8 @@ RATES = [50, 100, 200, 250, 500, 1000]
 def draw_processing(rng):
     from .batch import OPERATORS, METHODS
     cls = rng.choice(["traditional", "traditional", "single_azimuth", "rotdpp", "azimuthal", "diffuse_field"])
-    op, bw = rng.choice(OPERATORS[:2] + OPERATORS[3:])        # no Savitzky-Golay: may be refused as negative
+    op, bw = rng.choice(OPERATORS + OPERATORS[:2] + OPERATORS[3:])   # Savitzky-Golay less often (its negative lobes get
+    #                                                                  files refused; such files are skipped by the oracle)
     nf = rng.randint(4, 10)
     fcs = [float(x) for x in np.geomspace(0.5, 20.0, nf)]
     s = {"cls": cls, "policy": rng.choice(["frequency_domain_resampling", "keeping_majority_time_step"]),
@@ -147,6 +148,19 @@ def reference_outputs(d, paths, pp, qp, argv):
     H = hv()
     ref_dir = os.path.join(d, "ref")
     os.makedirs(ref_dir)
+    for stem_, p_ in sorted(paths.items()):
+        _reference_one(H, ref_dir, {stem_: p_}, pp, qp, argv)       # one pristine child per file
+    out = {}
+    for stem in paths:
+        p = os.path.join(ref_dir, stem + ".csv")
+        if os.path.exists(p + ".err"):
+            out[stem] = ("raised", open(p + ".err").read())
+        else:
+            out[stem] = open(p, "rb").read()
+    return out
+
+
+def _reference_one(H, ref_dir, paths, pp, qp, argv):
     pid = os.fork()
     if pid == 0:
         code = 0
@@ -176,14 +190,6 @@ def reference_outputs(d, paths, pp, qp, argv):
     _, status = os.waitpid(pid, 0)
     if status != 0:
         raise HarnessError("reference child failed")
-    out = {}
-    for stem in paths:
-        p = os.path.join(ref_dir, stem + ".csv")
-        if os.path.exists(p + ".err"):
-            out[stem] = ("raised", open(p + ".err").read())
-        else:
-            out[stem] = open(p, "rb").read()
-    return out
 
 
 def split_file(data):
